@@ -78,7 +78,7 @@ def main():
         for o in r["obligations"]:
             if o["status"] not in ("discharged", "covered") or a.v:
                 print(f"    {o['status']:10s} {o['name']}  ({o['seconds']}s) {o.get('reason','')}")
-                if o["status"] == "refuted" and a.v:
+                if o["status"] in ("refuted", "failed") and a.v:
                     print("      " + o.get("model", "").replace("\n", "\n      ")[:1500])
                 bad += o["status"] not in ("discharged", "covered")
     if a.json:
